@@ -11,3 +11,5 @@ var verifExpCode = []string{}
 var verifExpUnion = []string{}
 var verifExpRest = []string{}
 var verifGroupEnds = [][]int{}
+
+var verifRuleSpan = [][][2]int{}
